@@ -3,6 +3,7 @@ package sim
 import (
 	"context"
 	"fmt"
+	"runtime"
 	"sort"
 	"time"
 
@@ -405,6 +406,16 @@ func c17Linearizable(typ string, hist []porcupine.Operation) (*Violation, bool) 
 			},
 			Equal: func(a, b interface{}) bool { return a.(string) == b.(string) },
 		}
+	}
+	// the search is CPU-bound and this process runs on one P without timer-driven preemption:
+	// the model yields now and then so that the checker's timeout can take effect
+	steps := 0
+	inner := model.Step
+	model.Step = func(state, input, output interface{}) (bool, interface{}) {
+		if steps++; steps%2048 == 0 {
+			runtime.Gosched()
+		}
+		return inner(state, input, output)
 	}
 	res := porcupine.CheckOperationsTimeout(model, hist, 5*time.Second)
 	if res == porcupine.Unknown {
